@@ -41,7 +41,7 @@ KIo == /\ s.pc = "idle" /\ IoArmed(s) /\ Ready(s)
        /\ LET s1 == DeliverIo(s, s.peof, s.perr) IN s' = PreEnd(s1, PreIoPosts(s1))
        /\ UNCHANGED <<nfrag, nops>>
 KTmr == /\ s.pc = "idle" /\ TmrArmed(s)
-        /\ LET s1 == DeliverTmr(s) IN \E p \in PreTmrPosts(s1) : p[1].fl = 0 /\ s' = PreEnd(s1, p)
+        /\ LET s1 == DeliverTmr(s) IN \E p \in PreTmrPosts(s1) : s' = PreEnd(s1, p)
         /\ UNCHANGED <<nfrag, nops>>
 
 (* one I/O call of the transfer loop *)
@@ -79,7 +79,7 @@ Post == /\ s.pc = "post" /\ s' = PostEnd(s, IF s.h.ret = CB_CONTINUE THEN PostPo
 DStart == /\ s.pc = "dstart" /\ s' = DStartEnd(s, IF s.h.ret = CB_CONTINUE THEN RestartOk(s) ELSE << >>, 0) /\ UNCHANGED <<nfrag, nops>>
 
 (* operations of the owning thread between two events *)
-OwnerOp == /\ s.pc = "idle" /\ nops < MaxOps
+OwnerOp == /\ s.pc = "idle" /\ nops < MaxOps /\ s.ioEver
            /\ \/ s' = StopEnd(s, StopPosts(s))
               \/ ~(HasT(s) /\ ~s.tmr.present) /\ s' = EnableEnd(s, FALSE, EnablePosts(s, FALSE), 0)
               \/ s' = EnableEnd(s, TRUE, EnablePosts(s, TRUE), 0)
